@@ -192,7 +192,10 @@ type Env struct {
 	To    party.ID
 	Seq   int
 	Valid bool // what the model is told about this message's validity
-	Tag   string
+	// what the model is told about the round code panicking on this message (Model/Handler.v m_panic):
+	// 0 it does not, 1 it panics while decoding / verifying / storing it, 2 it accepts it and panics in Finalize of that round
+	Panics int
+	Tag    string
 }
 
 type Obs struct {
@@ -295,11 +298,18 @@ func (s *Sim) toIdx(id party.ID) int {
 }
 
 // msgSx renders a message as the model's msg tuple.
-func (s *Sim) msgSx(m *protocol.Message, valid bool) sx.V {
+func (s *Sim) msgSx(m *protocol.Message, valid bool) sx.V { return s.msgSxP(m, valid, 0) }
+
+// msgSxP: the same with the panic flag (11th element; left out when 0 -- the model reads an absent flag as "no panic").
+func (s *Sim) msgSxP(m *protocol.Message, valid bool, panics int) sx.V {
 	fp := s.Intern("msg", m.Hash())
-	return sx.List(sx.Int(s.Intern("ssid", nonNil(m.SSID))), sx.Int(s.Intern("proto", []byte(m.Protocol))), sx.Int(int64(s.idx(m.From))),
+	l := []sx.V{sx.Int(s.Intern("ssid", nonNil(m.SSID))), sx.Int(s.Intern("proto", []byte(m.Protocol))), sx.Int(int64(s.idx(m.From))),
 		sx.Int(int64(s.toIdx(m.To))), sx.Int(int64(m.RoundNumber)), sx.Bool(m.Data != nil), sx.Bool(m.Broadcast),
-		sx.Int(s.Intern("digest", m.BroadcastVerification)), sx.Int(fp), sx.Bool(valid))
+		sx.Int(s.Intern("digest", m.BroadcastVerification)), sx.Int(fp), sx.Bool(valid)}
+	if panics != 0 {
+		l = append(l, sx.Int(int64(panics)))
+	}
+	return sx.List(l...)
 }
 
 func nonNil(b []byte) []byte {
@@ -449,9 +459,18 @@ func errKindOf(text string) int {
 		return 3
 	case strings.Contains(text, "aborted by user"):
 		return 5
+	case strings.HasPrefix(text, recoveredPanicPrefix):
+		return 7 // Model/Handler.v EPanic: recoverToAbort, nobody named
 	}
 	return 2
 }
+
+// recoveredPanicPrefix is how MultiHandler.recoverToAbort words the error of a session ended by a recovered panic.
+const recoveredPanicPrefix = "panic while processing message"
+
+// roundPanicValue is what the harness's proxy rounds panic with (c17_panic.go); if such a panic ESCAPES from an API call the
+// runtime tag is 13 (Model/Handler.v: Panicked 3), as the model of Accept without the recovery (hnd.run.v0) predicts.
+const roundPanicValue = "c17: processing this message panics"
 
 func (s *Sim) observe(n *Node, msgs []*protocol.Message, pan string, extra int, hung bool) Obs {
 	o := Obs{Panic: pan, Extra: extra, Hung: hung}
@@ -550,7 +569,7 @@ func (s *Sim) Deliver(e *Env) Obs {
 	if s.det != nil {
 		s.det.setParty(string(n.Label))
 	}
-	n.Events = append(n.Events, sx.List(sx.Int(0), s.msgSx(e.Msg, e.Valid)))
+	n.Events = append(n.Events, sx.List(sx.Int(0), s.msgSxP(e.Msg, e.Valid, e.Panics)))
 	msgs, pan, hung := s.call(n, func() { n.H.Accept(e.Msg) })
 	o := s.observe(n, msgs, pan, 0, hung)
 	n.Obs = append(n.Obs, o)
@@ -714,6 +733,8 @@ func obsSx(o Obs) sx.V {
 			rt = 11
 		} else if strings.Contains(o.Panic, "send on closed") {
 			rt = 12
+		} else if strings.Contains(o.Panic, roundPanicValue) {
+			rt = 13
 		}
 	}
 	if o.Hung {
@@ -756,7 +777,8 @@ func (c *ctx) CompareWithModel(s *Sim, n *Node, sh shapeInfo, fixedStop bool) (i
 }
 
 // CompareWithModelNorm is CompareWithModel with a caller-supplied normalisation applied to both observations of event i
-// before they are compared (for behaviour the model has no event for, e.g. who is named after a recovered panic).
+// before they are compared (for behaviour the model has no event for; no caller at present: recovered panics, the one
+// former use, are model events now -- Env.Panics -- and are compared in full).
 func (c *ctx) CompareWithModelNorm(s *Sim, n *Node, sh shapeInfo, fixedStop bool, norm func(i int, model, real sx.V) (sx.V, sx.V)) (int, string, string, error) {
 	if n.MH == nil {
 		return -1, "", "", nil
